@@ -121,7 +121,7 @@ theorem succ_split {p q : Entries} {e : Key × Val} (h : Sorted (p ++ e :: q)) :
   | nil => rfl
   | cons e' q' =>
     have := (sorted_cons.mp hq).1 e' (by simp)
-    simp [List.find?_cons, this]
+    simp [this]
 
 theorem filter_lt_split {p q : Entries} {e : Key × Val} (h : Sorted (p ++ e :: q)) :
     (p ++ e :: q).filter (fun x => ltB x.1 e.1) = p := by
@@ -186,11 +186,11 @@ theorem fill_fwd (m : Entries) (it : Iter) (p q : Entries) (hm : m = p ++ q)
     | false =>
       simp only [Bool.not_false, if_true, List.takeWhile_cons, hb, Bool.false_eq_true, if_false, List.isEmpty_nil,
         Bool.not_true, and_true]
-      exact ⟨⟨p, e :: q', hm, by simp [List.takeWhile_cons, hb]⟩, rfl, hf, hr⟩
+      exact ⟨⟨p, e :: q', hm, by simp [hb]⟩, rfl, hf, hr⟩
     | true =>
       simp only [Bool.not_true, Bool.false_eq_true, if_false, List.takeWhile_cons, hb, if_true, List.isEmpty_cons,
         Bool.not_false, and_true]
-      exact ⟨⟨p, e :: q', hm, by simp [List.takeWhile_cons, hb]⟩, rfl, hf, hr⟩
+      exact ⟨⟨p, e :: q', hm, by simp [hb]⟩, rfl, hf, hr⟩
 
 theorem next_fwd {m : Entries} (hs : Sorted m) {it : Iter} {e : Key × Val} {l : Entries} (h : FwdAt m it (e :: l)) :
     FwdAt m (it.next m).1 l ∧ (it.next m).2 = !l.isEmpty := by
@@ -305,11 +305,11 @@ theorem fill_bwd (m : Entries) (it : Iter) (p q : Entries) (hm : m = p ++ q)
     | false =>
       simp only [Bool.not_false, if_true, List.takeWhile_cons, hb, Bool.false_eq_true, if_false, List.isEmpty_nil,
         Bool.not_true, and_true]
-      exact ⟨⟨p, q, hm, by simp [hpr, List.takeWhile_cons, hb]⟩, rfl, hf, hr⟩
+      exact ⟨⟨p, q, hm, by simp [hpr, hb]⟩, rfl, hf, hr⟩
     | true =>
       simp only [Bool.not_true, Bool.false_eq_true, if_false, List.takeWhile_cons, hb, if_true, List.isEmpty_cons,
         Bool.not_false, and_true]
-      exact ⟨⟨p, q, hm, by simp [hpr, List.takeWhile_cons, hb]⟩, rfl, hf, hr⟩
+      exact ⟨⟨p, q, hm, by simp [hpr, hb]⟩, rfl, hf, hr⟩
 
 theorem prev_bwd {m : Entries} (hs : Sorted m) {it : Iter} {e : Key × Val} {l : Entries} (h : BwdAt m it (e :: l)) :
     BwdAt m (it.prev m).1 l ∧ (it.prev m).2 = !l.isEmpty := by
